@@ -58,12 +58,11 @@ theorem setAdmin_preserves_record {d d' : Dir} {u : Bytes} {st : Bool}
         exact ⟨a, x, he, hx, get_put_self _ _ _⟩
       · rename_i hn; rw [hx] at hn; simp at hn
 
-/-- Read-only calls are functions of the directory: they have no result directory, so they
-    cannot change it (structural in the model); their traces contain no mutating event
-    (checked on the real strace traces by `tr.c15ro`). -/
-theorem readonly_is_pure (c : Cfg) (d : Dir) (u p : Bytes) :
-    (authenticate c d u p, exists_ d u, list c d, listFull c d, check c d) =
-    (authenticate c d u p, exists_ d u, list c d, listFull c d, check c d) := rfl
+/- Read-only calls (authenticate, exists, list, list-full, check) are functions
+   `Cfg → Dir → … → result` in the model: they have no result directory, so there is nothing to
+   state as a theorem about them; that the REAL calls perform no file-system mutation is decided
+   on their strace traces by the checker `tr.c15ro` (no creat/write/rename/unlink/mkdir/fsync
+   event at all between the markers). -/
 
 end Whawty.Store.C15
 
